@@ -554,6 +554,11 @@ func checkC15(c *Ctx) {
 				continue
 			}
 			recvObj := info.Defs[decl.Recv.List[0].Names[0]]
+			// only the generator object (and what it holds in its fields) outlives a file: a helper value created
+			// on the per-file path and written through its own methods is per-file state
+			if recvObj != nil && !outlivesFile(recvObj.Type(), c.P.Decls[gen], info) {
+				continue
+			}
 			ast.Inspect(decl.Body, func(n ast.Node) bool {
 				as, ok := n.(*ast.AssignStmt)
 				if !ok {
@@ -1097,4 +1102,34 @@ func sharedSliceMutation(c *Ctx, rid string, only func(*types.Func) bool) {
 		})
 	}
 	r.OKd(rid, "in-place sorts of the selected generator packages inventoried", "", map[string]any{"in_place_sorts": nSorts})
+}
+
+// outlivesFile: t is the generator's own type (the receiver of Generate) or the type of one of its fields.
+func outlivesFile(t types.Type, genDecl *ast.FuncDecl, info *types.Info) bool {
+	named := func(t types.Type) *types.Named {
+		if p, ok := t.(*types.Pointer); ok {
+			t = p.Elem()
+		}
+		n, _ := t.(*types.Named)
+		return n
+	}
+	tn := named(t)
+	if tn == nil || genDecl == nil || genDecl.Recv == nil || len(genDecl.Recv.List) == 0 {
+		return true
+	}
+	gt := named(info.TypeOf(genDecl.Recv.List[0].Type))
+	if gt == nil {
+		return true
+	}
+	if gt.Obj() == tn.Obj() {
+		return true
+	}
+	if st, ok := gt.Underlying().(*types.Struct); ok {
+		for i := 0; i < st.NumFields(); i++ {
+			if fn := named(st.Field(i).Type()); fn != nil && fn.Obj() == tn.Obj() {
+				return true
+			}
+		}
+	}
+	return false
 }
